@@ -18,13 +18,13 @@ func init() {
 		ID:      "C08",
 		Level:   "other",
 		Explain: "The equation between the two renderings relates two runs and is not decided. Decided is one clause of its mechanism, a necessary condition: a leaf block parser must not consume the line terminator, otherwise the next line's container marker is taken as content. (L) In every BlockParser.Open/Continue of the module and the module helpers they hand the reader to, AdvanceLine is never called on the reader, and no Advance/AdvanceAndSetPadding argument is — after normalising to a linear form over the peeked segment's Stop, Start, Padding, len(line) and Segment.Len() — provably at least the full length of the peeked line. The rule flags only what is provably a whole line (a bug finder without false alarms, not a proof). Does NOT decide marker/tab column arithmetic, blank-line bookkeeping or lazy continuation.",
-		Rules:   []func(*World, *Report){ruleStayOnLine, ruleFreeParsersRejectBlankLines, ruleQuoteMarkerAndOneSpace, ruleOneBlankNotion, ruleQuoteWrapper},
+		Rules:   []func(*World, *Report){ruleStayOnLine, ruleFreeParsersRejectBlankLines, ruleQuoteMarkerAndOneSpace, ruleOneBlankNotion, ruleQuoteWrapper, ruleSpansThroughReader},
 	})
 	register(&Property{
 		ID:      "C09",
 		Level:   "other",
 		Explain: "Independence of neighbouring blocks depends on the values of context flags across lines and is not decided. Decided is the clause that makes link reference definitions position-independent: (P) Context.AddReference is called only from code reachable from the block phase and not from the inline phase, Context.Reference lookups happen only in code reachable from the inline phase (or later) and not from the block phase, and in Parse the block-phase call dominates the start of the inline phase — so every lookup sees every definition wherever it stands; the first definition wins (the store in AddReference is dominated by the miss edge of a lookup of the same key). Does NOT decide the A/heading/B independence equation or label normalisation.",
-		Rules:   []func(*World, *Report){ruleReferencePhases, ruleBlockStateInitialised, ruleBlockStateOwner, ruleEndOfInputClosesAll, ruleTitleDelimiters},
+		Rules:   []func(*World, *Report){ruleReferencePhases, ruleBlockStateInitialised, ruleBlockStateOwner, ruleEndOfInputClosesAll, ruleTitleDelimiters, ruleHTMLBlockEndCaseInsensitive},
 	})
 	register(&Property{
 		ID:      "C11",
